@@ -121,12 +121,20 @@ func newProcess(m Mode) {
 	}
 	// every package-level variable of the library gets its initial value again (generated from the sources at build time:
 	// state that a change introduces is as cold as in a real new process); the colour switch is the harness' own setting
+	// UPDATE_SNAPS reaches the library the way it does in a real process: through the environment, read by the
+	// initialisers that the generated reset re-evaluates (a change to how the variable is interpreted is in the loop).
+	// CI detection lives in a dependency (ciinfo, evaluated at its own init): isCI is assigned.
+	if m.Update == "" {
+		os.Unsetenv("UPDATE_SNAPS")
+	} else {
+		os.Setenv("UPDATE_SNAPS", m.Update)
+	}
 	nc := colors.NOCOLOR
 	verifResetGlobals()
 	match.VerifResetGlobals()
 	difflib.VerifResetGlobals()
 	colors.NOCOLOR = nc
-	setMode(m)
+	isCI = m.CI
 }
 
 func eventsSnapshot() map[string]int {
